@@ -9,6 +9,6 @@ Extraction "../ocaml/gen/C11/model.ml" keep_types
   real_caps mbase_decode msg_decode factory
   mb_encode msg_encode msg_encode_str
   render_default canonical
-  copy_legal move_legal clone copy_msg move_msg
-  prec_split field_state render_c11
+  copy_legal move_legal clone copy_msg move_msg copy_msg_to move_msg_to
+  prec_split field_state render_c11 is_float_type
   content same_content count_fields c11_ok.
